@@ -2141,7 +2141,7 @@ double BW_MidiSequencer::Tick(double s, double granularity)
     {
         if(!processEvents())
             break;
-        if(m_currentPosition.wait <= 0.0)
+        if(m_currentPosition.wait <= granularity * 0.5) // every round that asks for one more (rows can be far less than the granularity apart)
             antiFreezeCounter--;
     }
 
